@@ -78,6 +78,9 @@ type Env struct {
 	traceDeclared map[string]bool
 	pending       sync.WaitGroup
 	iterOrd       int
+	arrayViews    map[string]*Ptr // whole-value byte views of [N]byte variables, by backing-array ref
+	iteNames      map[string]string
+	sortOf        map[string]string
 	writeLog      map[string][]string
 	allocLog      map[string]bool
 }
@@ -101,7 +104,60 @@ func (e *Env) fresh(hint, sort string) string {
 	e.counter++
 	n := q(fmt.Sprintf("%s!%d", sanitize(hint), e.counter))
 	e.sess.Cmd("(declare-const " + n + " " + sort + ")")
+	if e.sortOf == nil {
+		e.sortOf = map[string]string{}
+	}
+	e.sortOf[n] = sort
 	return n
+}
+
+// sortOfTerm infers the SMT sort of a term built by this engine ("" if unknown).
+func (e *Env) sortOfTerm(t string) string {
+	if t == "" {
+		return ""
+	}
+	if t[0] != '(' {
+		if (t[0] >= '0' && t[0] <= '9') || t == "0" {
+			return sInt
+		}
+		if t == tTrue || t == tFalse {
+			return sBool
+		}
+		if s, ok := e.sortOf[t]; ok {
+			return s
+		}
+		if strings.HasPrefix(t, "|") {
+			name := strings.Trim(t, "|")
+			if k := strings.LastIndex(name, "@"); k > 0 {
+				if s, ok := e.heapSorts[name[:k]]; ok {
+					return s
+				}
+			}
+		}
+		return ""
+	}
+	a := topArgs(t)
+	if len(a) == 0 {
+		return ""
+	}
+	switch a[0] {
+	case "+", "-", "*", "div", "mod", "tdiv", "tmod":
+		return sInt
+	case "select":
+		s := e.sortOfTerm(a[1])
+		if strings.HasPrefix(s, "(Array Int ") {
+			return strings.TrimSuffix(strings.TrimPrefix(s, "(Array Int "), ")")
+		}
+		return ""
+	case "store":
+		return e.sortOfTerm(a[1])
+	case "ite":
+		if s := e.sortOfTerm(a[2]); s != "" {
+			return s
+		}
+		return e.sortOfTerm(a[3])
+	}
+	return ""
 }
 
 func (e *Env) assume(fact string) {
@@ -567,89 +623,179 @@ func splitScripts(script, pc string) []string {
 // is additionally instantiated at those constants. Instances of assumptions are consequences
 // of them, so an unsat answer for the variant is an unsat answer for the obligation.
 func hintedScript(prefix, pc, goal string) string {
-	g := goal
-	if strings.HasPrefix(g, "(= true ") {
-		if a := topArgs(g); len(a) == 3 {
-			g = a[2]
+	if !strings.Contains(goal, "(forall (") {
+		return ""
+	}
+	// skolemise the universal quantifiers in positive positions of the goal (under and, the
+	// consequent of =>, annotations); each gets its own constants
+	type skq struct {
+		binders string
+		repl    *strings.Replacer
+	}
+	var sks []skq
+	var decls strings.Builder
+	nsk := 0
+	var sk func(t string) string
+	sk = func(t string) string {
+		if !strings.HasPrefix(t, "(") || !strings.Contains(t, "(forall (") || nsk > 6 {
+			return t
 		}
-	}
-	if !strings.HasPrefix(g, "(forall (") {
-		return ""
-	}
-	fa := topArgs(g)
-	if len(fa) != 3 {
-		return ""
-	}
-	binders, body := fa[1], fa[2]
-	if strings.HasPrefix(body, "(! ") {
-		body = topArgs(body)[1]
-	}
-	var names, sorts []string
-	for _, b := range topArgs("(x " + binders[1:len(binders)-1] + ")")[1:] {
-		ba := topArgs(b)
-		if len(ba) != 2 {
-			return ""
+		a := topArgs(t)
+		if len(a) == 0 {
+			return t
 		}
-		names = append(names, ba[0])
-		sorts = append(sorts, ba[1])
+		switch a[0] {
+		case "and":
+			out := make([]string, 0, len(a))
+			for _, x := range a[1:] {
+				out = append(out, sk(x))
+			}
+			return sx("and", out...)
+		case "=>":
+			if len(a) == 3 {
+				return sx("=>", a[1], sk(a[2]))
+			}
+		case "=":
+			if len(a) == 3 && a[1] == "true" {
+				return sk(a[2])
+			}
+		case "!":
+			return sk(a[1])
+		case "forall":
+			if len(a) != 3 {
+				return t
+			}
+			var repl []string
+			for _, bd := range topArgs("(x " + a[1][1:len(a[1])-1] + ")")[1:] {
+				ba := topArgs(bd)
+				if len(ba) != 2 {
+					return t
+				}
+				c := fmt.Sprintf("|sk%d%s|", nsk, strings.Trim(ba[0], "|"))
+				decls.WriteString("(declare-const " + c + " " + ba[1] + ")\n")
+				repl = append(repl, ba[0], c)
+			}
+			nsk++
+			r := strings.NewReplacer(repl...)
+			sks = append(sks, skq{a[1], r})
+			body := a[2]
+			if strings.HasPrefix(body, "(! ") {
+				body = topArgs(body)[1]
+			}
+			return sk(r.Replace(body))
+		}
+		return t
 	}
-	if len(names) == 0 || len(names) > 3 {
+	g2 := sk(goal)
+	if len(sks) == 0 {
 		return ""
 	}
-	repl := make([]string, 0, 2*len(names))
 	var sb strings.Builder
 	sb.WriteString(prefix)
-	for i, n := range names {
-		sk := "|sk" + strings.Trim(n, "|") + "|"
-		repl = append(repl, n, sk)
-		sb.WriteString("(declare-const " + sk + " " + sorts[i] + ")\n")
-	}
-	r := strings.NewReplacer(repl...)
-	key := "(forall " + binders + " "
+	sb.WriteString(decls.String())
 	hints := 0
-	for _, ln := range strings.Split(prefix, "\n") {
-		if !strings.HasPrefix(ln, "(assert ") {
-			continue
-		}
-		rest := ln
-		out := ""
-		changed := false
-		for {
-			k := strings.Index(rest, key)
-			if k < 0 {
-				break
+	lines := strings.Split(prefix, "\n")
+	for _, q := range sks {
+		key := "(forall " + q.binders + " "
+		for _, ln := range lines {
+			if !strings.HasPrefix(ln, "(assert ") || !strings.Contains(ln, key) {
+				continue
 			}
-			depth, j := 0, k
-			for ; j < len(rest); j++ {
-				if rest[j] == '(' {
-					depth++
-				} else if rest[j] == ')' {
-					depth--
-					if depth == 0 {
-						break
+			rest := ln
+			out := ""
+			changed := false
+			for {
+				k := strings.Index(rest, key)
+				if k < 0 {
+					break
+				}
+				depth, j := 0, k
+				for ; j < len(rest); j++ {
+					if rest[j] == '(' {
+						depth++
+					} else if rest[j] == ')' {
+						depth--
+						if depth == 0 {
+							break
+						}
 					}
 				}
+				if j >= len(rest) {
+					break
+				}
+				fb := topArgs(rest[k : j+1])
+				if len(fb) != 3 {
+					break
+				}
+				bd := fb[2]
+				if strings.HasPrefix(bd, "(! ") {
+					bd = topArgs(bd)[1]
+				}
+				out += rest[:k] + q.repl.Replace(bd)
+				rest = rest[j+1:]
+				changed = true
 			}
-			if j >= len(rest) {
-				break
+			if changed && hints < 80 {
+				sb.WriteString(out + rest + "\n")
+				hints++
 			}
-			fb := topArgs(rest[k : j+1])
-			if len(fb) != 3 {
-				break
-			}
-			b := fb[2]
-			if strings.HasPrefix(b, "(! ") {
-				b = topArgs(b)[1]
-			}
-			out += rest[:k] + r.Replace(b)
-			rest = rest[j+1:]
-			changed = true
-		}
-		if changed && hints < 60 {
-			sb.WriteString(out + rest + "\n")
-			hints++
 		}
 	}
-	sb.WriteString("(assert " + mkAnd(pc, mkNot(r.Replace(body))) + ")\n(check-sat)\n")
+	sb.WriteString("(assert " + mkAnd(pc, mkNot(g2)) + ")\n(check-sat)\n")
 	return sb.String()
+}
+
+// hoistItes replaces conditional sub-terms of a pattern (z3 rejects `if` inside patterns and
+// then ignores the pattern) by constants defined equal to them.
+func (e *Env) hoistItes(p string) string {
+	if !strings.Contains(p, "(ite ") {
+		return p
+	}
+	if e.iteNames == nil {
+		e.iteNames = map[string]string{}
+	}
+	for _, it := range iteSubterms(p) {
+		n, ok := e.iteNames[it]
+		if !ok {
+			srt := e.sortOfTerm(it)
+			if srt == "" {
+				continue
+			}
+			n = e.fresh("pi", srt)
+			e.sess.Cmd("(assert (= " + n + " " + it + "))")
+			e.iteNames[it] = n
+		}
+		p = strings.ReplaceAll(p, it, n)
+	}
+	return p
+}
+
+// Discovery runs (dry runs of loop bodies and iterator closures) only determine which heap
+// arrays a body writes; the assumptions and definitions they add to the session are useless
+// afterwards and make every later query larger. snapshot/rollback discard them.
+type sessSnap struct {
+	log                 string
+	declared, asserted  map[string]bool
+	iteNames            map[string]string
+}
+
+func (e *Env) snapshot() *sessSnap {
+	cp := func(m map[string]bool) map[string]bool {
+		n := make(map[string]bool, len(m))
+		for k, v := range m {
+			n[k] = v
+		}
+		return n
+	}
+	in := map[string]string{}
+	for k, v := range e.iteNames {
+		in[k] = v
+	}
+	return &sessSnap{log: e.sess.log.String(), declared: cp(e.declared), asserted: cp(e.asserted), iteNames: in}
+}
+
+func (e *Env) rollback(s *sessSnap) {
+	e.sess.log.Reset()
+	e.sess.log.WriteString(s.log)
+	e.declared, e.asserted, e.iteNames = s.declared, s.asserted, s.iteNames
 }
